@@ -29,8 +29,8 @@ from core.loader import AnalysisError, ClassInfo, FuncInfo, Repo, ancestors, hea
 from core.report import Result
 from core.types import elem_type, members
 
-from .c09_eval import POISON, Env, Evaluator, Frame, NativeObj, Obj, Partial, Raised, Unknown, model
-from .common import callees_of, conds, dotted, guard_formula, reachable_funcs, stmt_of, types_of, where
+from .c09_eval import POISON, Env, Evaluator, Frame, NativeObj, Obj, Partial, Raised, Unknown
+from .common import callees_of, conds, guard_formula, reachable_funcs, stmt_of, types_of, where
 
 NXGRAPH = "pytestarch.eval_structure.networkxgraph"
 GRAPH_CLASS = "NetworkxGraph"
@@ -509,7 +509,6 @@ def rule_r1_r3(cx: Ctx, cons: list[FuncInfo]) -> Flow:
     cands = fl.candidates(flow1)
     E = Effects(repo, cx.T)
     seen_keys: set[str] = set()
-    stray_limit = False
     n_flat = 0
     cands.sort(key=lambda fe: (fe[0].fq, getattr(fe[1], "lineno", 0), getattr(fe[1], "col_offset", 0), -(getattr(fe[1], "end_lineno", 0) * 10000 + getattr(fe[1], "end_col_offset", 0))))
     covered: set[int] = set()
@@ -609,8 +608,12 @@ def rule_r1_r3(cx: Ctx, cons: list[FuncInfo]) -> Flow:
                 continue
             st = stmt_of(n)
             # storing the limit on the object / handing it on to other construction code is not a use
-            if isinstance(st, (ast.Assign, ast.AnnAssign)) and all(isinstance(t, (ast.Attribute, ast.Name)) for t in (st.targets if isinstance(st, ast.Assign) else [st.target])) and not any(isinstance(x, (ast.Compare, ast.IfExp, ast.Subscript)) for x in ast.walk(st.value or ast.Constant(0))):
-                continue
+            if isinstance(st, (ast.Assign, ast.AnnAssign)):
+                tgts = st.targets if isinstance(st, ast.Assign) else [st.target]
+                if all(isinstance(t, ast.Attribute) for t in tgts):
+                    continue  # something derived from the limit is stored on the object: it is a carrier, its uses are looked at
+                if all(isinstance(t, (ast.Attribute, ast.Name)) for t in tgts) and not any(isinstance(x, (ast.Compare, ast.IfExp, ast.Subscript)) for x in ast.walk(st.value or ast.Constant(0))):
+                    continue
             p = parent(n)
             if isinstance(p, ast.Call) and n in p.args or isinstance(p, ast.keyword):
                 call = p if isinstance(p, ast.Call) else parent(p)
@@ -623,7 +626,6 @@ def rule_r1_r3(cx: Ctx, cons: list[FuncInfo]) -> Flow:
             stray.append((f, n))
     stray_limit = bool(stray)
     n = 0
-    kinds: set[str] = set()
     for f in cons:
         for node, what, args in cx.sink_events(f):
             for a in args:
@@ -631,7 +633,6 @@ def rule_r1_r3(cx: Ctx, cons: list[FuncInfo]) -> Flow:
                 if not tags:
                     continue
                 n += 1
-                kinds.add(what)
                 ok = tags == {"FLAT"}
                 key = repo.key(f, stmt_of(node)) + f" [{what}({norm(a, 30)})]"
                 if not ok and stray_limit:
